@@ -13,6 +13,10 @@ func init() {
 		Rules: func(r *Run) {
 			le := newLockEngine(r.P)
 			ruleL1(r, le)
+			ruleW1(r)
+			ruleW2(r)
+			ruleS1(r)
+			ruleE1(r)
 		},
 	})
 }
